@@ -22,7 +22,7 @@ def run(ctx):
     dot = ctx.path("blockexec.dot")
     ctx.tlc_exhaustive("BlockExec", "BlockExec.cfg", timeout=900, dump=dot)
     limit = 300 if ctx.quick() else 0
-    files, summ = ctx.replay("blockexec", graph=dot, shards=16, maxlen=10, limit=limit, timeout=3000)
+    files, summ = ctx.replay("blockexec", graph=dot, shards=16, maxlen=10, limit=limit, timeout=3000, chunk=100)
     ok = ctx.validate("TraceBlockExec", "TraceBlockExec.cfg", files, what="candidate lists on 4 real nodes", timeout=3000)
     ctx.cov["samples"] = summ["samples"]
     ctx.cov["exhaustive"] = not ctx.quick()
